@@ -371,6 +371,16 @@ class Pushes(Driver):
         if not isinstance(r, A.ScriptError):
             return BAD("nonminimal-wrong-exception", "ScriptError", exc_str(r), n=n, clause="nonminimal-push-exception",
                        length=len(d), opcode=opcode)
+        # the second route to the same decoder: ScriptTools.get_opcodes must refuse it too (round 6, C12-x2: the keyword was not forwarded)
+        st2, r2 = call(lambda: list(A.tools.get_opcodes(enc, verify_minimal_data=True)))
+        n += 1
+        if st2 == "ok":
+            return BAD("nonminimal-push-accepted", "CheckMinimalPush refuses opcode %d for %d bytes" % (opcode, len(d)),
+                       "get_opcodes(verify_minimal_data=True) accepted: %r" % (r2,)[:200], n=n,
+                       clause="nonminimal-push-accepted:get_opcodes", length=len(d), opcode=opcode)
+        if not isinstance(r2, A.ScriptError):
+            return BAD("nonminimal-wrong-exception", "ScriptError from get_opcodes", exc_str(r2), n=n, clause="nonminimal-push-exception",
+                       length=len(d), opcode=opcode)
         return OK("nonminimal:" + push_class(d, opcode), n=n)
 
     @staticmethod
